@@ -10,6 +10,8 @@ import json
 import math
 import os
 import re
+import subprocess
+import sys
 import unicodedata
 from fractions import Fraction
 
@@ -44,6 +46,13 @@ ASSUMPTIONS = [
     'the TRACE instance of the theorems (calls recorded in a list, results given by a function of callee and arguments) abstracts the real '
     'call wrapper: it is the same evalExpr, instantiated; the real call-back (callValue) is exercised by the correspondence',
     'known findings F17 (int -> str beyond 4300 digits) and F18 (self-containing containers) are out of scope: never generated',
+    'host boundary: a host value whose Python type is a subclass of int / float / str / list / dict / datetime / date (and overrides nothing) '
+    'is sent to the driver as the language value it carries; host-supplied callables (stream host-calls) cannot be sent to the driver and '
+    'the driver has no notion of the form of the options argument (none / {} / no log function / debug): those cases are checked on the '
+    'implementation side (reference evaluator, invocation record, plain-value equivalence, documented alias target) and against the model '
+    'only where the expression names no host function and the world has a log',
+    'evaluations without a globals dict (options None / {} / globals None) carry no maxStatements: no script function is reachable from '
+    'them (only values, library functions and host functions in the locals), so they cannot loop',
 ]
 TRUSTED = ['reference evaluator, value pool and generators in harness/props/C03.py (the property oracle)',
            'library functions are used as uninterpreted functions by the reference evaluator (systemType, arrayNew, ... and the alias targets)']
@@ -203,6 +212,251 @@ def canon(v, lib, depth=0):
 
 
 # ---------------------------------------------------------------------------------------------------------------------
+# the host boundary: values whose Python type is a SUBCLASS of the type that carries a language value, and host callables
+# ---------------------------------------------------------------------------------------------------------------------
+
+class HostInt(int):
+    """an int subclass that overrides nothing (like the integer scalars of numeric libraries)"""
+
+
+class HostFloat(float):
+    """a float subclass that overrides nothing (numpy.float64 is one)"""
+
+
+class HostStr(str):
+    """a str subclass that overrides nothing"""
+
+
+class HostList(list):
+    """a list subclass that overrides nothing"""
+
+
+class HostDict(dict):
+    """a dict subclass that overrides nothing"""
+
+
+class HostStamp(datetime.datetime):
+    """a datetime subclass that overrides nothing (pandas.Timestamp is one)"""
+
+
+class HostDate(datetime.date):
+    """a date subclass that overrides nothing"""
+
+
+_ENUMS = {}
+
+
+def _int_enum(x):
+    key = ('int', int(x))
+    if key not in _ENUMS:
+        _ENUMS[key] = enum.IntEnum('HostLevel', {'M': int(x)})
+    return _ENUMS[key].M
+
+
+def _str_enum(x):
+    key = ('str', str(x))
+    if key not in _ENUMS:
+        _ENUMS[key] = enum.Enum('HostWord', {'M': str(x)}, type=str)
+    return _ENUMS[key].M
+
+
+def _stamp(x):
+    return HostStamp(x.year, x.month, x.day, x.hour, x.minute, x.second, x.microsecond, x.tzinfo)
+
+
+SUB_BUILDERS = {
+    'int-sub': lambda x: HostInt(int(x)),
+    'int-enum': _int_enum,                                        # enum.IntEnum member
+    'http-status': lambda x: http.HTTPStatus(int(x)),             # a standard-library IntEnum
+    'float-sub': HostFloat,
+    'str-sub': HostStr,
+    'str-enum': _str_enum,                                        # class X(str, Enum) member
+    'list-sub': HostList,
+    'dict-sub': HostDict,
+    'ordered-dict': collections.OrderedDict,
+    'default-dict': lambda x: collections.defaultdict(list, x),
+    'dt-sub': _stamp,
+    'date-sub': lambda x: HostDate(x.year, x.month, x.day),
+}
+
+
+def plain_spec(spec):
+    """the same language value carried by the plain Python type: every {'sub': [kind, base]} replaced by base"""
+    if isinstance(spec, list):
+        return [plain_spec(x) for x in spec]
+    if isinstance(spec, dict):
+        (k, v), = spec.items()
+        if k == 'sub':
+            return plain_spec(v[1])
+        if k == 'obj':
+            return {'obj': [[kk, plain_spec(vv)] for kk, vv in v]}
+    return spec
+
+
+def spec_has(spec, key):
+    if isinstance(spec, list):
+        return any(spec_has(x, key) for x in spec)
+    if isinstance(spec, dict):
+        (k, v), = spec.items()
+        if k == key:
+            return True
+        if k == 'sub':
+            return spec_has(v[1], key)
+        if k == 'obj':
+            return any(spec_has(vv, key) for _, vv in v)
+        if k == 'hostfn':
+            return spec_has(v.get('data'), key) or any(spec_has(x, key) for x in v.get('queue', []))
+    return False
+
+
+class HostError(Exception):
+    """an application-defined exception"""
+
+
+class HostTypeError(TypeError):
+    """an application-defined TypeError"""
+
+
+class HostBadStrError(Exception):
+    """an exception that cannot be formatted: its __str__ raises"""
+
+    def __str__(self):
+        raise RuntimeError('no text for this error')
+
+
+class HostNonStrError(Exception):
+    """an exception whose __str__ does not return a string"""
+
+    def __str__(self):
+        return None
+
+
+HOST_EXC = {
+    'TypeError': TypeError, 'ValueError': ValueError, 'KeyError': KeyError, 'IndexError': IndexError, 'AttributeError': AttributeError,
+    'ZeroDivisionError': ZeroDivisionError, 'OverflowError': OverflowError, 'RuntimeError': RuntimeError, 'StopIteration': StopIteration,
+    'AssertionError': AssertionError, 'NotImplementedError': NotImplementedError, 'LookupError': LookupError, 'OSError': OSError,
+    'RecursionError': RecursionError, 'MemoryError': MemoryError, 'NameError': NameError, 'HostError': HostError,
+    'HostTypeError': HostTypeError, 'HostBadStrError': HostBadStrError, 'HostNonStrError': HostNonStrError,
+}
+# every signature accepts the documented call fn(args, options)
+HOST_SIGS = ['two', 'opt', 'opt3', 'star', 'starkw', 'rest', 'lambda-opt', 'method', 'method-opt', 'partial', 'partial-kw', 'object',
+             'static', 'class']
+HOST_BODIES = ['first', 'add1', 'len', 'index', 'neg', 'join', 'sum', 'count', 'queue', 'raise', 'raise-first', 'raise-on-type', 'args-error',
+               'runtime-error', 'ret', 'global']
+
+
+def make_host_fn(spec, record):
+    """A host-supplied function value.  spec: {'name', 'sig' (HOST_SIGS: how the callable is declared), 'body' (HOST_BODIES: what it does),
+    'exc' (the exception class it raises), 'data', 'queue'}.  EVERY invocation first appends [name, arguments] to `record` - its visible
+    side effect - and only then does its work, which may fail part-way."""
+    mods = fw.impl()
+    lib = mods['library'].SCRIPT_FUNCTIONS
+    name, body, data = spec.get('name', 'hf'), spec['body'], spec.get('data')
+    exc = HOST_EXC[spec.get('exc', 'TypeError')]
+    state = {'n': 0, 'queue': [build(x) for x in spec.get('queue', [])]}
+
+    def core(args, options):
+        state['n'] += 1
+        record.append([name, canon(list(args), lib)])
+        first = args[0] if args else None
+        if body == 'first':
+            return first
+        if body == 'add1':
+            return args[0] + 1                            # TypeError for a string / null / array ..., IndexError without arguments
+        if body == 'len':
+            return len(args[0])                           # TypeError for a number / null / datetime
+        if body == 'index':
+            return args[0][args[1]]                       # TypeError / IndexError / KeyError
+        if body == 'neg':
+            return -args[0]
+        if body == 'join':
+            return ','.join(args[0])
+        if body == 'sum':
+            return sum(args)
+        if body == 'count':
+            return state['n']                             # the number of invocations so far
+        if body == 'queue':
+            item = state['queue'].pop(0)                  # consumes one item per invocation (IndexError when exhausted)
+            return item * args[0]                         # TypeError for a null item
+        if body == 'raise':
+            raise exc('host failure')
+        if body == 'raise-first':
+            if state['n'] == 1:
+                raise exc('host failure (first invocation)')
+            return first if args else state['n']
+        if body == 'raise-on-type':
+            if ref_type(first) == data:
+                raise exc('host failure (argument type)')
+            return first
+        if body == 'args-error':
+            raise mods['value'].ValueArgsError('value', first, build(data))
+        if body == 'runtime-error':
+            raise mods['runtime'].BareScriptRuntimeError('host function says no')
+        if body == 'ret':
+            return build(data)
+        if body == 'global':
+            return options['globals'].get(data)           # a host function that reads a global through its options argument
+        raise ValueError(body)
+
+    sig = spec['sig']
+    if sig == 'two':
+        def fn(args, options):
+            return core(args, options)
+    elif sig == 'opt':
+        def fn(args, options=None):
+            return core(args, options)
+    elif sig == 'opt3':
+        def fn(args, options=None, extra=None):
+            del extra
+            return core(args, options)
+    elif sig == 'star':
+        def fn(*a):
+            return core(a[0], a[1] if len(a) > 1 else None)
+    elif sig == 'starkw':
+        def fn(*a, **kw):
+            del kw
+            return core(a[0], a[1] if len(a) > 1 else None)
+    elif sig == 'rest':
+        def fn(args, *rest):
+            return core(args, rest[0] if rest else None)
+    elif sig == 'lambda-opt':
+        fn = lambda args, options=None: core(args, options)       # pylint: disable=unnecessary-lambda-assignment
+    elif sig in ('method', 'method-opt', 'object', 'static', 'class'):
+        class Host:
+            def call(self, args, options):
+                return core(args, options)
+
+            def call_opt(self, args, options=None):
+                return core(args, options)
+
+            def __call__(self, args, options=None):
+                return core(args, options)
+
+            @staticmethod
+            def call_static(args, options=None):
+                return core(args, options)
+
+            @classmethod
+            def call_class(cls, args, options=None):
+                return core(args, options)
+        host = Host()
+        fn = {'method': host.call, 'method-opt': host.call_opt, 'object': host, 'static': host.call_static, 'class': Host.call_class}[sig]
+    elif sig == 'partial':
+        def tagged(tag, args, options=None):
+            del tag
+            return core(args, options)
+        fn = functools.partial(tagged, 'tag')
+    elif sig == 'partial-kw':
+        def with_extra(args, options=None, extra=0):
+            del extra
+            return core(args, options)
+        fn = functools.partial(with_extra, extra=1)
+    else:
+        raise ValueError(sig)
+    return fn
+
+
+# ---------------------------------------------------------------------------------------------------------------------
 # the operand pool: every value type, bound as initial globals
 # ---------------------------------------------------------------------------------------------------------------------
 
@@ -352,7 +606,7 @@ def model_num_text(fr):
 class Ref:
     """One evaluation: value (or RefUndefined), effect log, and the flags that say why the driver model does not apply."""
 
-    def __init__(self, globals_, locals_=None, builtins=False):
+    def __init__(self, globals_, locals_=None, builtins=False, optform='full'):
         self.mods = fw.impl()
         self.lib = self.mods['library'].SCRIPT_FUNCTIONS
         self.log = []
@@ -360,10 +614,15 @@ class Ref:
         self.globals = globals_
         self.locals = locals_
         self.builtins = builtins
-        self.options = {'globals': globals_, 'logFn': self.log.append, 'maxStatements': MAXS, 'statementCount': 0}
+        # the options object that called functions receive (see OPTION_FORMS)
+        self.options = make_options(optform, globals_, self.log)
+        if self.options is not None and 'globals' in self.options and self.options['globals'] is not None:
+            self.options['statementCount'] = 0
 
     def tr(self, args, unused_options):
-        self.log.append(self.text(args[0] if args else None))
+        text = self.text(args[0] if args else None)
+        if self.options is not None and 'logFn' in self.options:          # systemLog is silent without a log function
+            self.log.append(text)
         return args[1] if len(args) > 1 else None
 
     # -- stringification (the implementation's value_string is the definition: properties C13 / C14 / C16) --------------
@@ -553,24 +812,40 @@ def strip_library(g, keep):
             del g[k]
 
 
-def run_impl(mode, expr, env, locals_=None, builtins=False):
-    """-> (outcome dict {'result'|'error'|'hostexc', 'log'}, raw result object, globals dict used)"""
+# The forms of the `options` argument of evaluate_expression (all legal): the usual dict; none at all; an empty dict; a dict whose
+# `globals` is None; a dict without a log function; debug mode (failed calls are reported through logFn - those lines are not effects
+# of the expression and are removed from the observed log); debug mode without a log function.
+OPTION_FORMS = ['full', 'none', 'empty', 'globals-none', 'no-logfn', 'debug', 'debug-no-logfn']
+NO_GLOBALS_FORMS = ('none', 'empty', 'globals-none')
+NO_LOG_FORMS = ('none', 'empty', 'globals-none', 'no-logfn', 'debug-no-logfn')
+DEBUG_LINE = 'BareScript: Function "'
+
+
+def make_options(optform, g, log):
+    if optform == 'full':
+        return {'globals': g, 'maxStatements': MAXS, 'logFn': log.append}
+    if optform == 'none':
+        return None
+    if optform == 'empty':
+        return {}
+    if optform == 'globals-none':
+        return {'globals': None, 'maxStatements': MAXS}
+    if optform == 'no-logfn':
+        return {'globals': g, 'maxStatements': MAXS}
+    if optform == 'debug':
+        return {'globals': g, 'maxStatements': MAXS, 'logFn': log.append, 'debug': True}
+    if optform == 'debug-no-logfn':
+        return {'globals': g, 'maxStatements': MAXS, 'debug': True}
+    raise ValueError(optform)
+
+
+def impl_outcome(fn, out):
+    """run fn() on the implementation; the outcome goes to out['result' | 'error' | 'hostexc']; -> the raw result"""
     mods = fw.impl()
     runtime, library, parser = mods['runtime'], mods['library'], mods['parser']
-    log = []
-    g = dict(env)
-    options = {'globals': g, 'maxStatements': MAXS, 'logFn': log.append}
-    out = {}
     res = None
     try:
-        iexpr = progen.impl_expr(expr)
-        if mode == 'exec':
-            res = runtime.execute_script({'statements': TR_STATEMENTS + [{'return': {'expr': iexpr}}]}, options)
-        else:
-            runtime.execute_script({'statements': TR_STATEMENTS}, options)
-            strip_library(g, env)
-            loc = dict(locals_) if locals_ is not None else None
-            res = runtime.evaluate_expression(iexpr, options, loc, builtins)
+        res = fn()
         out['result'] = canon(res, library.SCRIPT_FUNCTIONS)
     except runtime.BareScriptRuntimeError as exc:
         out['error'] = str(exc)
@@ -579,30 +854,67 @@ def run_impl(mode, expr, env, locals_=None, builtins=False):
     except RecursionError:
         out['hostexc'] = 'RecursionError'
     except Exception as exc:  # pylint: disable=broad-except
-        out['hostexc'] = type(exc).__name__ + ': ' + str(exc)[:200]
-    out['log'] = list(log)
+        try:
+            out['hostexc'] = type(exc).__name__ + ': ' + str(exc)[:200]
+        except Exception:  # pylint: disable=broad-except
+            out['hostexc'] = type(exc).__name__ + ' (no text)'
+    return res
+
+
+def run_impl(mode, expr, env, locals_=None, builtins=False, optform='full'):
+    """-> (outcome dict {'result'|'error'|'hostexc', 'log'}, raw result object, globals dict used)"""
+    runtime = fw.impl()['runtime']
+    log = []
+    g = dict(env) if optform not in NO_GLOBALS_FORMS else {}
+    options = make_options(optform, g, log)
+    out = {}
+
+    def go():
+        iexpr = progen.impl_expr(expr)
+        if mode == 'exec':
+            return runtime.execute_script({'statements': TR_STATEMENTS + [{'return': {'expr': iexpr}}]}, options)
+        if optform not in NO_GLOBALS_FORMS:
+            runtime.execute_script({'statements': TR_STATEMENTS}, options)
+            strip_library(g, env)
+        loc = dict(locals_) if locals_ is not None else None
+        if optform == 'none' and loc is None and builtins:
+            return runtime.evaluate_expression(iexpr)                 # every optional argument left out
+        return runtime.evaluate_expression(iexpr, options, loc, builtins)
+    res = impl_outcome(go, out)
+    out['log'] = [ln for ln in log if not (optform == 'debug' and isinstance(ln, str) and ln.startswith(DEBUG_LINE))]
     return out, res, g
 
 
-def run_ref(mode, expr, env, locals_=None, builtins=False):
-    """-> (outcome dict, raw result, Ref)"""
+def make_ref(mode, env, locals_=None, builtins=False, optform='full'):
     library = fw.impl()['library']
-    g = dict(env)
+    g = dict(env) if optform not in NO_GLOBALS_FORMS else {}
     if mode == 'exec':
         for name, fn in library.SCRIPT_FUNCTIONS.items():
             g.setdefault(name, fn)
-    ref = Ref(g, dict(locals_) if locals_ is not None else None, builtins and mode != 'exec')
+    ref = Ref(g, dict(locals_) if locals_ is not None else None, builtins and mode != 'exec', optform)
     ref.tr.__func__.c03_script = True
-    g['tr'] = ref.tr
-    out = {}
+    if optform not in NO_GLOBALS_FORMS:
+        g['tr'] = ref.tr
+    return ref
+
+
+def ref_outcome(fn, out):
     res = None
     try:
-        res = ref.ev(expr)
-        out['result'] = canon(res, library.SCRIPT_FUNCTIONS)
+        res = fn()
+        out['result'] = canon(res, fw.impl()['library'].SCRIPT_FUNCTIONS)
     except RefUndefined as exc:
         out['error'] = f'Undefined function "{exc.name}"'
     except fw.impl()['runtime'].BareScriptRuntimeError as exc:
         out['error'] = str(exc)
+    return res
+
+
+def run_ref(mode, expr, env, locals_=None, builtins=False, optform='full'):
+    """-> (outcome dict, raw result, Ref)"""
+    ref = make_ref(mode, env, locals_, builtins, optform)
+    out = {}
+    res = ref_outcome(lambda: ref.ev(expr), out)
     out['log'] = list(ref.log)
     return out, res, ref
 
@@ -619,7 +931,15 @@ def model_request(mode, expr, env, locals_=None, builtins=False):
             except NotWireable:
                 if k in used:                     # a global the expression never names need not exist in the model
                     raise
-        wl = [[k, mwire(v, lib)] for k, v in locals_.items()] if locals_ is not None else None
+        wl = None
+        if locals_ is not None:
+            wl = []
+            for k, v in locals_.items():
+                try:
+                    wl.append([k, mwire(v, lib)])
+                except NotWireable:
+                    if k in used:
+                        raise
     except NotWireable:
         return None
     if mode == 'exec':
@@ -673,12 +993,21 @@ def text_of(expr):
 
 
 class Case:
-    """One expression evaluation: mode, expression, environment specs (globals / locals), builtins flag."""
+    """One expression evaluation: mode, expression, environment specs (globals / locals), builtins flag, form of the options argument."""
 
-    def __init__(self, mode, expr, gspecs, lspecs=None, builtins=False, tags=(), identity=None):
+    def __init__(self, mode, expr, gspecs, lspecs=None, builtins=False, tags=(), identity=None, optform='full'):
         self.mode, self.expr, self.gspecs, self.lspecs, self.builtins = mode, expr, gspecs, lspecs, builtins
         self.tags = list(tags)
         self.identity = identity            # (op, left variable, right variable) for the `is` oracle
+        self.optform = optform
+        self._hosted = None
+
+    @property
+    def hosted(self):
+        if self._hosted is None:
+            specs = [s for s in list(self.gspecs.values()) + list((self.lspecs or {}).values()) if isinstance(s, (dict, list)) and s]
+            self._hosted = any(spec_has(s, 'hostfn') for s in specs)
+        return self._hosted
 
     def input(self):
         d = {'mode': self.mode, 'text': text_of(self.expr), 'expr': self.expr, 'globals': self.gspecs}
@@ -688,22 +1017,35 @@ class Case:
             d['builtins'] = self.builtins
         if self.identity:
             d['identity'] = list(self.identity)
+        if self.optform != 'full':
+            d['options'] = self.optform
         return d
 
 
 def case_of_input(inp):
     return Case(inp['mode'], inp['expr'], inp['globals'], inp.get('locals'), inp.get('builtins', False),
-                identity=tuple(inp['identity']) if inp.get('identity') else None)
+                identity=tuple(inp['identity']) if inp.get('identity') else None, optform=inp.get('options', 'full'))
+
+
+HOST_ONCE = 'host-function-invoked-once-in-order'
 
 
 def check_case(case, env=None, locals_=None):
-    """Run implementation and reference on one case. -> (impl_out, ref, failures [(oracle, expected, actual)], env, locals)"""
+    """Run implementation and reference on one case. -> (impl_out, ref, failures [(oracle, expected, actual)], env, locals)
+    A case with host functions (stateful, recording) gets one freshly built environment per side."""
+    rec_i, rec_r = [], []
+    hosted = env is None and case.hosted
     if env is None:
-        env = build_env(case.gspecs)
+        env = build_env(case.gspecs, rec_i)
     if locals_ is None and case.lspecs is not None:
-        locals_ = {k: build(s) for k, s in case.lspecs.items()}
-    impl, res, g = run_impl(case.mode, case.expr, env, locals_, case.builtins)
-    rout, _, ref = run_ref(case.mode, case.expr, env, locals_, case.builtins)
+        locals_ = build_env(case.lspecs, rec_i)
+    impl, res, g = run_impl(case.mode, case.expr, env, locals_, case.builtins, case.optform)
+    if hosted:
+        env_r = build_env(case.gspecs, rec_r)
+        loc_r = build_env(case.lspecs, rec_r) if case.lspecs is not None else None
+    else:
+        env_r, loc_r = env, locals_
+    rout, _, ref = run_ref(case.mode, case.expr, env_r, loc_r, case.builtins, case.optform)
     fails = []
     if 'hostexc' in impl:
         fails.append(('no-host-exception', rout, impl))
@@ -712,6 +1054,8 @@ def check_case(case, env=None, locals_=None):
             fails.append(('typed-operator-value', {k: rout[k] for k in rout if k != 'log'}, {k: impl[k] for k in impl if k != 'log'}))
         if impl['log'] != rout['log']:
             fails.append(('evaluation-order-and-laziness', rout['log'], impl['log']))
+    if hosted and rec_i != rec_r:
+        fails.append((HOST_ONCE, rec_r, rec_i))
     if case.identity and 'result' in impl:
         op, lname, rname = case.identity
         lv = g.get(lname)
@@ -747,6 +1091,8 @@ class Batch:
             bound = set(env) | set(locals_ or ())
             if any(n in DOC_ALIASES and n not in bound for n in expr_vars(case.expr)):
                 ref.flags.add('builtin-call')      # the driver only records calls of built-ins: see stream `builtins`
+        if case.optform in NO_LOG_FORMS and 'tr' in expr_vars(case.expr):
+            ref.flags.add('no-log-function')           # the driver's world always has a log
         if not ref.flags:
             req = model_request(case.mode, case.expr, env, locals_, case.builtins)
         if req is None:
@@ -841,11 +1187,11 @@ LOCAL_SHADOWS = [None, True, {'num': (4.0).hex()}, 'loc', [], {'obj': []}, {'lib
 
 
 class TreeGen:
-    def __init__(self, rng, names, maxdepth, calls=True):
-        self.rng, self.names, self.maxdepth, self.calls = rng, names, maxdepth, calls
+    def __init__(self, rng, names, maxdepth, calls=True, trace=True):
+        self.rng, self.names, self.maxdepth, self.calls, self.trace = rng, names, maxdepth, calls, trace
         self.by_type = {}
         for n in names:
-            self.by_type.setdefault(POOL_TYPE[n], []).append(n)
+            self.by_type.setdefault(POOL_TYPE.get(n, 'function'), []).append(n)
         self.types = sorted(self.by_type)
         self.tag = 0
         self.kinds = set()
@@ -903,7 +1249,7 @@ class TreeGen:
                 fn = rng.choice(['nope', 'nope', 'vn', 'n1', 'sa', 'fl'])       # unbound / bound to null / not callable / a function value
                 e = progen.call(fn, *[self.tree(depth + 1) for _ in range(1 if fn == 'fl' else rng.choice([0, 1, 2, 2]))])
                 self.kinds.add('call-' + ('undefined' if fn in ('nope', 'vn') else ('value' if fn != 'fl' else 'fnvalue')))
-        if rng.random() < 0.3:
+        if rng.random() < 0.3 and self.trace:
             self.tag += 1
             e = traced(f't{self.tag}', e)
         return e
@@ -2024,6 +2370,660 @@ def stream_datetime_arith(ctx):
 
 
 # ---------------------------------------------------------------------------------------------------------------------
+# stream host-values: numbers / strings / arrays / objects / datetimes supplied by the HOST as instances of subclasses of the Python types
+# ---------------------------------------------------------------------------------------------------------------------
+
+def sub(kind, base):
+    return {'sub': [kind, base]}
+
+
+SUB_VALUES = [
+    sub('int-sub', {'int': 3}), sub('int-enum', {'int': 0}), sub('int-enum', {'int': 3}), sub('int-enum', {'int': -2}),
+    sub('http-status', {'int': 200}),
+    sub('float-sub', fnum(0.5)), sub('float-sub', fnum(-3.75)), sub('float-sub', fnum(0.0)), sub('float-sub', fnum(7.0)),
+    sub('str-sub', 'abc'), sub('str-sub', ''), sub('str-enum', '5'),
+    sub('list-sub', [fnum(1.0), 'x']), sub('list-sub', []), [sub('int-enum', {'int': 1}), sub('float-sub', fnum(2.5))],
+    sub('dict-sub', {'obj': [['k', fnum(1.0)]]}), sub('ordered-dict', {'obj': [['k', fnum(1.0)], ['b', 'v']]}),
+    sub('default-dict', {'obj': []}), {'obj': [['k', sub('http-status', {'int': 404})]]},
+    sub('dt-sub', {'dt': [2024, 2, 29, 12, 30, 15, 250000]}), sub('date-sub', {'date': [2024, 3, 1]}),
+]
+# pool name -> host variants carrying the same language value
+SUB_VARIANTS = {
+    'n0': [sub('int-enum', {'int': 0}), sub('int-sub', {'int': 0}), sub('float-sub', fnum(0.0))],
+    'n1': [sub('int-enum', {'int': 1}), sub('int-sub', {'int': 1}), sub('float-sub', fnum(1.0))],
+    'nm': [sub('int-enum', {'int': -2}), sub('float-sub', fnum(-2.0))],
+    'nh': [sub('float-sub', fnum(0.5))],
+    'nq': [sub('float-sub', fnum(-3.75))],
+    'n7': [sub('int-enum', {'int': 7}), sub('float-sub', fnum(7.0)), sub('int-sub', {'int': 7})],
+    'i3': [sub('int-sub', {'int': 3}), sub('int-enum', {'int': 3})],
+    'i0': [sub('int-enum', {'int': 0})],
+    'ne': [sub('float-sub', fnum(1e15)), sub('int-sub', {'int': 10 ** 15})],
+    'se': [sub('str-sub', ''), sub('str-enum', '')],
+    'sa': [sub('str-sub', 'abc'), sub('str-enum', 'abc')],
+    's5': [sub('str-sub', '5'), sub('str-enum', '5')],
+    'sn': [sub('str-sub', 'null')],
+    'sq': [sub('str-sub', 'a"b\xe9')],
+    'su': [sub('str-enum', 'Ａ\U0001f600')],
+    'd1': [sub('dt-sub', {'dt': [2024, 2, 29, 12, 30, 15, 250000]})],
+    'd0': [sub('dt-sub', {'dt': [1970, 1, 1, 0, 0, 0, 0]})],
+    'dd': [sub('date-sub', {'date': [2024, 3, 1]})],
+    'ae': [sub('list-sub', [])],
+    'a1': [sub('list-sub', [fnum(1.0), 'x"\xe9', None]), [sub('float-sub', fnum(1.0)), sub('str-sub', 'x"\xe9'), None]],
+    'a2': [sub('list-sub', [[fnum(1.0)], sub('list-sub', [fnum(2.5), True])])],
+    'oe': [sub('dict-sub', {'obj': []}), sub('ordered-dict', {'obj': []}), sub('default-dict', {'obj': []})],
+    'o1': [sub('ordered-dict', {'obj': [['k', fnum(1.0)], ['b', 'v']]}), sub('dict-sub', {'obj': [['k', sub('int-enum', {'int': 1})], ['b', 'v']]})],
+}
+SUBCLASS_ORACLE = 'host-subclass-value-is-its-base-value'
+SUBCLASS_TEXT = ('a host value whose Python type is a subclass of int / float / str / list / dict / datetime IS the language value it carries: '
+                 'the outcome equals the outcome with the plain value')
+
+
+def sub_kind(spec):
+    return spec['sub'][0] if isinstance(spec, dict) and 'sub' in spec else 'nested'
+
+
+def plain_case(case):
+    return Case(case.mode, case.expr, {k: plain_spec(v) for k, v in case.gspecs.items()},
+                {k: plain_spec(v) for k, v in case.lspecs.items()} if case.lspecs is not None else None, case.builtins, optform=case.optform)
+
+
+def plain_failure(case, impl=None):
+    """reference-free: the implementation on the host values vs the implementation on the plain values -> (expected, actual) or None"""
+    if impl is None:
+        impl, _, _ = run_impl(case.mode, case.expr, build_env(case.gspecs), build_env(case.lspecs) if case.lspecs is not None else None,
+                              case.builtins, case.optform)
+    pc = plain_case(case)
+    want, _, _ = run_impl(pc.mode, pc.expr, build_env(pc.gspecs), build_env(pc.lspecs) if pc.lspecs is not None else None, pc.builtins,
+                          pc.optform)
+    return None if impl == want else (want, impl)
+
+
+def host_value_add(batch, case, items, state, nontrivial=True, key=None):
+    """One case through reference / plain-value equivalence / model.  `items`: the operator expressions of a composite case - a failing
+    composite is reported item by item (the smallest failing expressions)."""
+    checked = check_case(case)
+    pf = plain_failure(case, checked[0])
+    if checked[2] or pf is not None:
+        if state['reports'] < ORDER_REPORT_CAP:
+            state['reports'] += 1
+            reported = False
+            for item in items or []:
+                single = Case(case.mode, item, {k: v for k, v in case.gspecs.items() if k in expr_vars(item)},
+                              ({k: v for k, v in case.lspecs.items() if k in expr_vars(item)} if case.lspecs is not None else None),
+                              case.builtins, tags=case.tags, optform=case.optform)
+                one = check_case(single)
+                for oracle, want, got in one[2]:
+                    batch.ctx.witness(oracle, single.input(), want, got)
+                    reported = True
+                spf = plain_failure(single, one[0])
+                if spf is not None:
+                    batch.ctx.witness(SUBCLASS_ORACLE, single.input(), spf[0], spf[1])
+                    reported = True
+            if not reported:
+                for oracle, want, got in checked[2]:
+                    batch.ctx.witness(oracle, case.input(), want, got)
+                if pf is not None:
+                    batch.ctx.witness(SUBCLASS_ORACLE, case.input(), pf[0], pf[1])
+        checked = (checked[0], checked[1], [], checked[3], checked[4])
+    return batch.add(case, checked=checked, nontrivial=nontrivial, key=key)
+
+
+def operator_items(left, right):
+    return [progen.binop(op, left, right) for op in OPS] + [progen.unop('-', left), progen.unop('!', left), progen.unop('-', right)]
+
+
+def stream_host_values(ctx):
+    st = ctx.stream('host-values', 'HOST-BOUNDARY values: numbers, strings, arrays, objects and datetimes supplied in globals / locals as instances of '
+                                   'SUBCLASSES of the Python types (int subclass, enum.IntEnum member, http.HTTPStatus, float subclass, str subclass, '
+                                   '(str, Enum) member, list / dict subclasses, OrderedDict, defaultdict, datetime / date subclasses; also nested inside '
+                                   'plain arrays / objects): (1) ALL 14 binary operators and both unary operators, in one arrayNew(...), for every host '
+                                   'value x every partner (pool values of all 9 types and the other host values), in both operand positions, '
+                                   'through execute_script and evaluate_expression; (2) random expression trees to depth 6 over the value pool with a '
+                                   'random subset of the names rebound (globals or locals) to host variants of the same language value. Oracles: the '
+                                   'reference evaluator (typed operator table), the Lean machine on the carried values, and reference-free: the outcome '
+                                   'equals the outcome with the plain values; non-trivial = every case (distinct operands / trees)')
+    rng = ctx.rng('host-values')
+    batch = Batch(ctx, 'host-values', st)
+    state = {'reports': 0}
+    partners = [(n, s) for n, _, s in POOL if n != 'tr' and (not ctx.quick or n in QUICK_NAMES)]
+    partners += [(f'host{i}', s) for i, s in enumerate(SUB_VALUES)]
+    k = 0
+    for si, sv in enumerate(SUB_VALUES):
+        for pn, ps in partners:
+            for swap in (False, True):
+                k += 1
+                mode = 'exec' if k % 2 else 'eval'
+                gspecs = {'x': ps, 'y': sv} if swap else {'x': sv, 'y': ps}
+                items = operator_items(var('x'), var('y'))
+                if mode == 'eval':
+                    gspecs['arrayNew'] = {'lib': 'arrayNew'}
+                lspecs = None
+                if mode == 'eval' and k % 3 == 0:                           # the host value as a LOCAL
+                    name = 'x' if not swap else 'y'
+                    lspecs = {name: gspecs.pop(name)}
+                case = Case(mode, progen.call('arrayNew', *items), gspecs, lspecs, builtins=(k % 4 == 0),
+                            tags=['family:operators', 'host:' + sub_kind(sv), 'partner:' + (POOL_TYPE.get(pn) or 'host:' + sub_kind(ps)),
+                                  'position:' + ('right' if swap else 'left'), 'mode:' + mode + ('+locals' if lspecs else '')])
+                host_value_add(batch, case, items, state, key=[si, pn, swap])
+        batch.flush()
+    names = [n for n, _, _ in POOL if n not in ('tr', 'rx')]
+    for i in range(ctx.scale(2000, 30000)):
+        gen = TreeGen(rng, names + ['tr'], rng.choice([2, 3, 4, 5, 6, 6]))
+        expr = gen.tree()
+        gspecs = pool_specs()
+        used = sorted(n for n in expr_vars(expr) if n in SUB_VARIANTS)
+        chosen = [n for n in used if rng.random() < 0.7] or used[:1]
+        if not chosen:
+            chosen = [rng.choice(sorted(SUB_VARIANTS))]
+            expr = progen.wf_binary(rng.choice(ARITH), expr if 'binary' not in expr else progen.group(expr), var(chosen[0]))
+        for n in chosen:
+            gspecs[n] = rng.choice(SUB_VARIANTS[n])
+        tags = ['family:trees', f'depth{min(expr_depth(expr), 9)}'] + ['host:' + sub_kind(gspecs[n]) for n in chosen]
+        if i % 5 < 3:
+            case = Case('exec', expr, gspecs, tags=tags + ['mode:exec'])
+        else:
+            for fn in LIB_IN_TREES + ['systemLog']:
+                gspecs[fn] = {'lib': fn}
+            lspecs = None
+            if rng.random() < 0.6:
+                lspecs = {n: gspecs.pop(n) for n in chosen if rng.random() < 0.6}
+            case = Case('eval', expr, gspecs, lspecs, builtins=rng.random() < 0.5, tags=tags + ['mode:eval' + ('+locals' if lspecs else '')])
+        host_value_add(batch, case, None, state, nontrivial=expr_depth(expr) >= 2)
+        if i % 500 == 499:
+            batch.flush()
+    batch.flush()
+
+
+# ---------------------------------------------------------------------------------------------------------------------
+# stream host-calls: host-supplied callables (every way of declaring one) that do part of their work and then fail
+# ---------------------------------------------------------------------------------------------------------------------
+
+HOST_NAMES = ['hf0', 'hf1', 'hf2', 'hf3']
+BODY_WEIGHTS = ['first', 'add1', 'add1', 'len', 'len', 'index', 'neg', 'join', 'sum', 'count', 'count', 'queue', 'queue', 'raise', 'raise',
+                'raise-first', 'raise-first', 'raise-on-type', 'raise-on-type', 'raise-on-type', 'args-error', 'runtime-error', 'ret', 'global']
+QUEUE_ITEMS = [None, {'int': 5}, fnum(2.5), 'ab', {'int': 7}, None]
+RET_VALUES = [None, fnum(2.0), 'r', [], True] + SUB_VALUES
+
+
+def host_fn_spec(rng, name, sig=None, body=None):
+    spec = {'name': name, 'sig': sig or rng.choice(HOST_SIGS), 'body': body or rng.choice(BODY_WEIGHTS)}
+    body = spec['body']
+    if body in ('raise', 'raise-first', 'raise-on-type'):
+        spec['exc'] = rng.choice(sorted(HOST_EXC)) if rng.random() < 0.6 else 'TypeError'
+    if body == 'raise-on-type':
+        spec['data'] = rng.choice(['string', 'null', 'number', 'array', 'boolean', 'datetime'])
+    elif body == 'args-error':
+        spec['data'] = rng.choice([None, fnum(-1.0), 'bad', []])
+    elif body == 'ret':
+        spec['data'] = rng.choice(RET_VALUES)
+    elif body == 'global':
+        spec['data'] = rng.choice(['n7', 'sa', 'zz', 'a1'])
+    elif body == 'queue':
+        spec['queue'] = [rng.choice(QUEUE_ITEMS) for _ in range(rng.randint(0, 4))]
+    return {'hostfn': spec}
+
+
+class HostTreeGen(TreeGen):
+    """random trees in which ~1/3 of the inner nodes are calls of host functions (0-3 argument expressions)"""
+
+    def __init__(self, rng, names, maxdepth, hostnames, trace=True, rate=0.3):
+        super().__init__(rng, names, maxdepth, trace=trace)
+        self.hostnames, self.rate = hostnames, rate
+
+    def tree(self, depth=1):
+        rng = self.rng
+        if depth < self.maxdepth and rng.random() < self.rate:
+            fn = rng.choice(self.hostnames)
+            e = progen.call(fn, *[self.tree(depth + 1) for _ in range(rng.choice([1, 1, 1, 2, 2, 0, 3]))])
+            self.kinds.add('call-host')
+            if rng.random() < 0.15 and self.trace:
+                self.tag += 1
+                e = traced(f't{self.tag}', e)
+            return e
+        return super().tree(depth)
+
+
+def fails_to_witnesses(ctx, case, fails):
+    inp = None
+    for oracle, want, got in fails:
+        inp = inp or case.input()
+        ctx.witness(oracle, inp, want, got)
+
+
+# (what the function does, an argument on which it fails part-way, an argument on which it succeeds)
+def host_behaviours():
+    out = [({'body': 'add1'}, progen.string('a'), progen.num(41)), ({'body': 'add1'}, var('null'), progen.num(1)),
+           ({'body': 'len'}, progen.num(5), progen.string('abc')), ({'body': 'neg'}, progen.string('s'), progen.num(2)),
+           ({'body': 'join'}, progen.num(1), var('ae')), ({'body': 'sum'}, progen.string('s'), progen.num(3)),
+           ({'body': 'index'}, var('a1'), progen.string('abc'))]
+    for exc in sorted(HOST_EXC):
+        out.append(({'body': 'raise-on-type', 'exc': exc, 'data': 'string'}, progen.string('a'), progen.num(1)))
+    for exc in ('TypeError', 'ValueError', 'KeyError', 'HostTypeError'):
+        out.append(({'body': 'raise-first', 'exc': exc}, progen.num(9), progen.num(9)))
+    out += [({'body': 'queue', 'queue': [None, {'int': 5}, {'int': 7}]}, progen.num(2), progen.num(2)),
+            ({'body': 'queue', 'queue': []}, progen.num(2), progen.num(2)),
+            ({'body': 'args-error', 'data': fnum(-1.0)}, progen.string('a'), progen.num(1)),
+            ({'body': 'runtime-error'}, progen.string('a'), progen.num(1)),
+            ({'body': 'count'}, progen.string('a'), progen.num(1)),
+            ({'body': 'global', 'data': 'n7'}, progen.string('a'), progen.num(1)),
+            ({'body': 'ret', 'data': sub('int-enum', {'int': 3})}, progen.string('a'), progen.num(1))]
+    return out
+
+
+def host_templates(fail, ok):
+    hf = lambda *a: progen.call('hf0', *a)
+    return [
+        ('single', hf(fail)),
+        ('sum', progen.binop('+', progen.binop('+', hf(ok), progen.group(progen.binop('||', hf(fail), hf(progen.num(10))))), hf(progen.num(100)))),
+        ('if', progen.call('if', var('true'), hf(fail), hf(ok))),
+        ('and', progen.binop('&&', progen.binop('==', hf(fail), var('null')), hf(ok))),
+    ]
+
+
+# ---- histories: several evaluations on the SAME options / globals / host function objects ---------------------------------
+
+HISTORY_ORACLE = 'host-call-history'
+HISTORY_TEXT = ('every step evaluates to the value the language defines (a failed call is null, an undefined function is an error of that step '
+                'only), with every host function invoked exactly once per call expression on the evaluated path, in order, whatever happened in '
+                'earlier steps')
+
+
+def run_history(inp):
+    """inp: {'mode', 'seq': [expr], 'globals', 'locals'?, 'builtins'?} -> (expected, actual) of implementation vs reference"""
+    mods = fw.impl()
+    runtime, lib = mods['runtime'], mods['library'].SCRIPT_FUNCTIONS
+    mode, exprs, builtins = inp['mode'], inp['seq'], inp.get('builtins', False)
+    lspecs = inp.get('locals')
+    sides = []
+    for side in ('impl', 'ref'):
+        rec = []
+        env = build_env(inp['globals'], rec)
+        loc = build_env(lspecs, rec) if lspecs is not None else None
+        out = {}
+        if side == 'impl':
+            models = {}
+            for e in exprs:
+                models.setdefault(json.dumps(e, sort_keys=True), progen.impl_expr(e))
+            imodel = lambda e: models[json.dumps(e, sort_keys=True)]             # pylint: disable=unnecessary-lambda-assignment
+            log = []
+            g = dict(env)
+            options = make_options('full', g, log)
+            if mode == 'exec':
+                stmts = TR_STATEMENTS + [{'expr': {'name': f'v{i}', 'expr': imodel(e)}} for i, e in enumerate(exprs)]
+                impl_outcome(lambda: runtime.execute_script({'statements': stmts}, options), out)     # pylint: disable=cell-var-from-loop
+                out.pop('result', None)
+                out['steps'] = [canon(g[f'v{i}'], lib) if f'v{i}' in g else 'unassigned' for i in range(len(exprs))]
+            else:
+                runtime.execute_script({'statements': TR_STATEMENTS}, options)
+                strip_library(g, env)
+                out['steps'] = []
+                for e in exprs:
+                    o = {}
+                    impl_outcome(lambda: runtime.evaluate_expression(imodel(e), options, loc, builtins), o)  # pylint: disable=cell-var-from-loop
+                    out['steps'].append(o)
+            out['log'] = list(log)
+        else:
+            ref = make_ref(mode, env, loc, builtins)
+            loc = ref.locals
+            steps = []
+            for i, e in enumerate(exprs):
+                o = {}
+                val = ref_outcome(lambda: ref.ev(e), o)                                              # pylint: disable=cell-var-from-loop
+                if mode == 'exec':
+                    if 'error' in o:
+                        out['error'] = o['error']
+                        break
+                    ref.globals[f'v{i}'] = val
+                    steps.append(o['result'])
+                else:
+                    steps.append(o)
+            out['steps'] = steps + ['unassigned'] * (len(exprs) - len(steps))
+            out['log'] = list(ref.log)
+        out['calls'] = rec
+        sides.append(out)
+    return sides[1], sides[0]
+
+
+def stream_host_calls(ctx):
+    st = ctx.stream('host-calls', 'HOST-BOUNDARY callables: function values supplied by the host in globals / locals, declared in every way that accepts '
+                                  'the documented call fn(args, options) - def f(args, options), options=None, extra optional parameters, *args, '
+                                  '*args/**kwargs, (args, *rest), lambdas, bound methods, callable objects, static / class methods, functools.partial '
+                                  'objects - each RECORDING its invocation and then doing work that fails part-way for some arguments (natural '
+                                  'TypeError / IndexError / KeyError of its body, 20 exception classes (incl. exceptions whose __str__ raises) raised on an argument type or on the first '
+                                  'invocation only, ValueArgsError with a return value, a BareScriptRuntimeError), consuming a queue, counting its '
+                                  'invocations, reading a global through its options argument, or returning a host-subclass value: (1) ALL '
+                                  'declarations x behaviours x 4 expression shapes (alone; inside a sum with ||; the selected branch of if; left of &&), '
+                                  '(2) random trees to depth 5 with ~1/3 host calls over the value pool, (3) HISTORIES: 2-5 expressions evaluated one '
+                                  'after the other on the same options / globals / function objects, some steps repeating an earlier expression (statements of one script, or repeated '
+                                  'evaluate_expression calls continuing after a failed step). Oracles (host functions cannot be sent to the Lean '
+                                  'driver: implementation-side only, the model is compared where no host function is named): the reference evaluator '
+                                  '(a failed call is null / the ValueArgsError value; runtime errors propagate) and the invocation record - every '
+                                  'call expression on the evaluated path invokes its function exactly once, left to right; non-trivial = every case')
+    rng = ctx.rng('host-calls')
+    batch = Batch(ctx, 'host-calls', st)
+    base = {k: s for k, s in pool_specs().items() if k in ('n7', 'sa', 'a1', 'ae')}
+    k = 0
+    # (1) declarations x behaviours x shapes
+    for sig in HOST_SIGS:
+        for bi, (bspec, fail, ok) in enumerate(host_behaviours()):
+            for shape, expr in host_templates(fail, ok):
+                k += 1
+                mode = 'exec' if k % 2 else 'eval'
+                fspec = {'hostfn': dict(bspec, name='hf0', sig=sig)}
+                gspecs, lspecs = dict(base), None
+                if mode == 'eval' and k % 3 == 0:
+                    lspecs = {'hf0': fspec}
+                else:
+                    gspecs['hf0'] = fspec
+                case = Case(mode, expr, gspecs, lspecs, builtins=(k % 4 == 0),
+                            tags=['family:declarations', 'sig:' + sig, 'body:' + bspec['body'] + (':' + bspec['exc'] if 'exc' in bspec else ''),
+                                  'shape:' + shape, 'mode:' + mode + ('+locals' if lspecs else '')])
+                batch.add(case, key=[sig, bi, shape])
+    batch.flush()
+    # (2) random trees with host calls
+    names = [n for n, _, _ in POOL if n not in ('tr', 'rx')]
+    for i in range(ctx.scale(2500, 30000)):
+        nfn = rng.randint(1, 3)
+        hostnames = HOST_NAMES[:nfn]
+        alias = None
+        if rng.random() < 0.1:
+            alias = rng.choice(['max', 'len', 'text', 'abs'])               # a host function bound to the name of a built-in: the binding wins
+            hostnames = hostnames + [alias]
+        for _ in range(5):
+            gen = HostTreeGen(rng, names + ['tr'] + (['hf0'] if rng.random() < 0.2 else []), rng.choice([2, 3, 4, 5, 5]), hostnames)
+            expr = gen.tree()
+            if 'call-host' in gen.kinds:
+                break
+        else:
+            expr = progen.call(hostnames[0], expr)
+        gspecs = pool_specs()
+        fspecs = {n: host_fn_spec(rng, n) for n in hostnames}
+        tags = ['family:trees', f'depth{min(expr_depth(expr), 9)}'] + sorted({'sig:' + f['hostfn']['sig'] for f in fspecs.values()}) + \
+            sorted({'body:' + f['hostfn']['body'] for f in fspecs.values()})
+        if i % 2:
+            gspecs.update(fspecs)
+            case = Case('exec', expr, gspecs, tags=tags + ['mode:exec'])
+        else:
+            for fn in LIB_IN_TREES + ['systemLog']:
+                gspecs[fn] = {'lib': fn}
+            lspecs = None
+            if rng.random() < 0.4:
+                lspecs = {n: fspecs.pop(n) for n in list(fspecs) if rng.random() < 0.6}
+            gspecs.update(fspecs)
+            case = Case('eval', expr, gspecs, lspecs, builtins=(alias is not None or rng.random() < 0.5),
+                        tags=tags + ['mode:eval' + ('+locals' if lspecs else '')])
+        batch.add(case)
+        if i % 500 == 499:
+            batch.flush()
+    batch.flush()
+    # (3) histories
+    reports = 0
+    for i in range(ctx.scale(500, 10000)):
+        nfn = rng.randint(1, 2)
+        hostnames = HOST_NAMES[:nfn]
+        mode = 'exec' if i % 2 else 'eval'
+        nsteps = rng.randint(2, 5)
+        seq = []
+        for j in range(nsteps):
+            extra = [f'v{x}' for x in range(j)] if mode == 'exec' else []
+            gen = HostTreeGen(rng, names + ['tr'], rng.choice([2, 3, 3, 4]), hostnames, rate=0.45)
+            e = gen.tree()
+            if extra and rng.random() < 0.5:
+                e = progen.wf_binary(rng.choice(['+', '||', '&&', '==', '*']), var(rng.choice(extra)), e)
+            if rng.random() < 0.08:
+                e = progen.call('nope', e)                                   # an undefined function: the step fails, the history goes on
+            if j and rng.random() < 0.25:
+                e = seq[rng.randrange(j)]                                    # the SAME expression (object) again, on the changed state
+            seq.append(e)
+        gspecs = pool_specs()
+        fspecs = {n: host_fn_spec(rng, n, body=rng.choice(['count', 'queue', 'raise-first', 'add1', 'raise-on-type', 'len', 'raise', 'first']))
+                  for n in hostnames}
+        lspecs = None
+        if mode == 'eval':
+            for fn in LIB_IN_TREES + ['systemLog']:
+                gspecs[fn] = {'lib': fn}
+            if rng.random() < 0.3:
+                lspecs = {hostnames[0]: fspecs.pop(hostnames[0])}
+        gspecs.update(fspecs)
+        inp = {'mode': mode, 'texts': [text_of(e) for e in seq], 'seq': seq, 'globals': gspecs}
+        if lspecs is not None:
+            inp['locals'] = lspecs
+        if mode == 'eval':
+            inp['builtins'] = rng.random() < 0.5
+        want, got = run_history(inp)
+        if want != got and reports < ORDER_REPORT_CAP:
+            reports += 1
+            # the shortest failing prefix, then that step alone
+            small = inp
+            for n in range(1, nsteps + 1):
+                cut = dict(inp, seq=seq[:n], texts=inp['texts'][:n])
+                w, g = run_history(cut)
+                if w != g:
+                    small, want, got = cut, w, g
+                    break
+            ctx.witness(HISTORY_ORACLE, small, want, got, note=HISTORY_TEXT)
+        st.case(['history', mode, seq, sorted(lspecs or {}), sorted((n, json.dumps(f, sort_keys=True)) for n, f in fspecs.items())],
+                nontrivial=True,
+                tags=['family:histories', 'mode:' + mode, f'steps{nsteps}', 'reference-only'] + sorted({'body:' + f['hostfn']['body'] for f in fspecs.values()}))
+
+
+# ---------------------------------------------------------------------------------------------------------------------
+# stream options-forms: every legal form of the `options` argument of evaluate_expression
+# ---------------------------------------------------------------------------------------------------------------------
+
+def stream_options_forms(ctx):
+    st = ctx.stream('options-forms', 'evaluate_expression under every legal form of its options argument - left out / None (with locals and builtins '
+                                     'also left out when possible), {}, globals None, no log function, debug mode with and without a log function - where '
+                                     'everything the expression needs comes from the locals when there are no globals: (1) each of the 46 documented '
+                                     'built-ins with typed, mistyped, missing and surplus arguments (so that many calls FAIL) vs the documented target '
+                                     'library function called directly on the same argument values (a failed call is null / the failure value, never a '
+                                     'host exception); (2) a host function that raises each of 20 exception classes (incl. exceptions whose __str__ raises or returns a '
+                                     'non-string) under every form; (3) random expression trees to depth 5 over the value pool with library calls and host '
+                                     'functions that fail, vs the reference evaluator and the Lean machine (empty globals; debug report lines are not '
+                                     'part of the observed log); non-trivial = every case')
+    mods = fw.impl()
+    lib = mods['library'].SCRIPT_FUNCTIONS
+    rng = ctx.rng('options-forms')
+    batch = Batch(ctx, 'options-forms', st)
+    forms = OPTION_FORMS[1:]
+    base_specs = {k: s for k, s in pool_specs().items() if k in ('d1', 'd0', 'dd', 'a1', 'ae', 'o1')}
+    reports = 0
+    for alias, target in sorted(DOC_ALIASES.items()):
+        for form in forms:
+            for _ in range(ctx.scale(2, 30)):
+                args = alias_args(rng, target)
+                expr = progen.call(alias, *args)
+                nog = form in NO_GLOBALS_FORMS
+                used = expr_vars(expr)
+                vals = {k: s for k, s in base_specs.items() if k in used}
+                gspecs, lspecs = ({}, vals or None) if nog else (vals, None)
+                case = Case('eval', expr, gspecs, lspecs, True, tags=['family:builtins', 'alias:' + alias, 'options:' + form], optform=form)
+                env = build_env(gspecs)
+                locals_ = build_env(lspecs) if lspecs is not None else None
+                impl, _, _ = run_impl('eval', expr, env, locals_, True, form)
+                argvals = [run_impl('eval', a, env, locals_, True, form)[1] for a in args]
+                want = direct_call(lib.get(target), argvals, env)
+                got = {k: impl[k] for k in impl if k != 'log'}
+                if not same_outcome(alias, want, got, None) and reports < ORDER_REPORT_CAP:
+                    reports += 1
+                    ctx.witness('alias-is-documented-target', case.input(), want, got)
+                st.case([alias, expr, form], nontrivial=True,
+                        tags=case.tags + ['reference-only', 'error' if 'error' in impl else ('hostexc' if 'hostexc' in impl else
+                                                                                                  'value:' + result_type(impl.get('result')))])
+    # every exception class x every form of the options: the failed host call is null (in debug mode the report must not fail either)
+    for form in forms:
+        for exc in sorted(HOST_EXC):
+            for sig in (['opt', 'two'] if ctx.quick else HOST_SIGS):
+                fspec = {'hostfn': {'name': 'hf0', 'sig': sig, 'body': 'raise-on-type', 'exc': exc, 'data': 'string'}}
+                expr = progen.binop('||', progen.call('hf0', progen.string('a')), progen.call('hf0', progen.num(3)))
+                nog = form in NO_GLOBALS_FORMS
+                case = Case('eval', expr, {} if nog else {'hf0': fspec}, {'hf0': fspec} if nog else None, False,
+                            tags=['family:failing-host-call', 'options:' + form, 'exc:' + exc], optform=form)
+                batch.add(case, key=[form, exc, sig])
+    batch.flush()
+    for i in range(ctx.scale(1500, 25000)):
+        form = forms[i % len(forms)]
+        nog = form in NO_GLOBALS_FORMS
+        names = [n for n, _, _ in POOL if n not in ('tr', 'rx')]
+        hostnames = HOST_NAMES[:rng.randint(1, 2)]
+        gen = HostTreeGen(rng, names + ([] if nog else ['tr']), rng.choice([2, 3, 4, 5]), hostnames, trace=not nog, rate=0.15)
+        expr = gen.tree()
+        specs = pool_specs()
+        for fn in LIB_IN_TREES + ['systemLog']:
+            specs[fn] = {'lib': fn}
+        for n in hostnames:
+            specs[n] = host_fn_spec(rng, n, body=rng.choice(['add1', 'len', 'raise', 'raise-on-type', 'args-error', 'count', 'first', 'neg', 'global']))
+        if nog:
+            gspecs, lspecs = {}, specs
+        else:
+            gspecs, lspecs = specs, None
+            if rng.random() < 0.4:
+                lspecs = {n: gspecs.pop(n) for n in list(gspecs) if n != 'systemLog' and rng.random() < 0.2}    # tr needs the global systemLog
+        case = Case('eval', expr, gspecs, lspecs, builtins=rng.random() < 0.6,
+                    tags=['family:trees', 'options:' + form, f'depth{min(expr_depth(expr), 9)}'] + sorted(gen.kinds), optform=form)
+        batch.add(case, key=form)
+        if i % 500 == 499:
+            batch.flush()
+    batch.flush()
+
+
+# ---------------------------------------------------------------------------------------------------------------------
+# stream fresh-process: the value of an expression is a function of the expression and its operands - not of what the process
+# evaluated before (values that the HOST's == / hash identify although the language, or its text, tells them apart)
+# ---------------------------------------------------------------------------------------------------------------------
+
+_FRESH_CHILD = r'''
+import importlib.util, json, sys
+harness, modpath = sys.argv[1], sys.argv[2]
+sys.path.insert(0, harness)
+import extract
+spec = importlib.util.spec_from_file_location('c03_fresh_child', modpath)
+mod = importlib.util.module_from_spec(spec)
+spec.loader.exec_module(mod)
+out = []
+for group in json.load(sys.stdin):
+    extract._CACHE['mods'] = extract.fresh_import()          # a fresh copy of the implementation modules for every group
+    out.append([mod.fresh_outcome(inp) for inp in group])
+json.dump(out, sys.stdout)
+'''
+FRESH_ORACLE = 'fresh-process-same-answer'
+FRESH_TEXT = ('the value of an expression is defined by the expression and its operands: evaluated as the first thing a fresh interpreter '
+              'does, or after other evaluations, it gives the same answer')
+
+
+def fresh_outcome(inp):
+    """one case input -> the implementation's outcome (JSON-able)"""
+    case = case_of_input(inp)
+    out, _, _ = run_impl(case.mode, case.expr, build_env(case.gspecs), build_env(case.lspecs) if case.lspecs is not None else None,
+                         case.builtins, case.optform)
+    return out
+
+
+def fresh_run(groups, timeout=600):
+    """[[case input]] -> [[outcome]]: every group evaluated IN ORDER by freshly imported implementation modules, in ONE new interpreter
+    process (nothing of this process's state)"""
+    harness = os.path.join(fw.VERIF, 'harness')
+    res = subprocess.run([sys.executable, '-c', _FRESH_CHILD, harness, os.path.abspath(__file__)], input=json.dumps(groups),
+                         capture_output=True, text=True, timeout=timeout, check=False)
+    if res.returncode != 0:
+        raise fw.Infra('fresh interpreter process failed: ' + res.stderr[-600:])
+    return json.loads(res.stdout)
+
+
+# groups of values that the host's == and hash identify (one cache key) - the language, or its text, does not
+TWIN_GROUPS = [
+    [fnum(0.0), fnum(-0.0), {'int': 0}, False, sub('float-sub', fnum(-0.0)), sub('int-enum', {'int': 0})],
+    [fnum(1.0), {'int': 1}, True, sub('int-enum', {'int': 1})],
+    [fnum(2.0), {'int': 2}, sub('float-sub', fnum(2.0))],
+    [fnum(1e15), {'int': 10 ** 15}],
+    [fnum(-3.0), {'int': -3}],
+    ['1', sub('str-sub', '1'), sub('str-enum', '1')],
+    [{'dta': DAY0 + [0]}, {'dta': DAY0 + [330]}, {'dta': DAY0 + [-480]}],
+]
+# (text with x for the operand, needs the built-in expression functions?)
+TWIN_TEMPLATES = [
+    ("'' + x", False), ("x + ''", False), ("x + 1", False), ("x * 2", False), ("0 - x", False), ("-x", False), ("!x", False),
+    ("x == 0", False), ("x == 1", False), ("x < 1", False), ("x && 'y'", False), ("x || 'y'", False), ("if(x, 'T', 'F')", False),
+    ("'[' + arrayNew(x, arrayNew(x)) + ']'", False), ("arrayNew(x) == arrayNew(1)", False), ("systemType(x)", False),
+    ("2 ** x", False), ("7 / x", False), ("7 % x", False), ("x - x", False),
+    ("text(x)", True), ("abs(x)", True), ("fixed(x, 1)", True), ("max(x, 0)", True), ("round(x)", True), ("sign(x)", True),
+    ("len(x)", True), ("parseInt(x)", True), ("year(x)", True), ("lower(x)", True),
+]
+
+
+def twin_cases():
+    parser = fw.impl()['parser']
+    out = []
+    for gi, group in enumerate(TWIN_GROUPS):
+        for vi, spec in enumerate(group):
+            for ti, (text, builtins) in enumerate(TWIN_TEMPLATES):
+                expr = progen.canon_expr(parser.parse_expression(text))
+                gspecs = {'x': spec}
+                if builtins or (gi + vi + ti) % 2:
+                    mode = 'eval'
+                    for fn in ('arrayNew', 'systemType'):
+                        if fn in expr_vars(expr):
+                            gspecs[fn] = {'lib': fn}
+                else:
+                    mode = 'exec'
+                out.append(Case(mode, expr, gspecs, None, builtins, tags=['family:twins', f'group{gi}', 'host:' + sub_kind(spec) if
+                                                                              isinstance(spec, dict) and 'sub' in spec else 'plain']))
+    return out
+
+
+def stream_fresh_process(ctx):
+    st = ctx.stream('fresh-process', 'PROCESS STATE: the same evaluation in a fresh interpreter gives the same answer. A list of cases - (1) 30 '
+                                     'expression shapes (text of the operand by + and inside arrays, arithmetic, comparisons, truthiness, '
+                                     'built-ins of expression mode) over every member of 7 groups of values that the host identifies (== and '
+                                     'hash: 0.0 / -0.0 / 0 / false, 1.0 / 1 / true, 2.0 / 2, 1e15 float / int, str and str subclasses, one instant in '
+                                     'three zones) although the language or its text tells them apart, (2) random expression trees of stream '
+                                     'expr-eval - is evaluated three times: in this process (after everything the other streams evaluated), in '
+                                     'list order by a NEW interpreter process, and in reverse order by another new process; every case must have '
+                                     'the same outcome (value, error, log) in all three. A deviation is reduced to a two-step history [Y, X] '
+                                     '(X after Y differs from X alone, both on freshly imported modules). Implementation-side only (the Lean '
+                                     'model has no process state); non-trivial = every case')
+    rng = ctx.rng('fresh-process')
+    cases = twin_cases()
+    for i in range(ctx.scale(300, 6000)):
+        c = tree_case(rng, i)
+        c.tags = ['family:trees']
+        cases.append(c)
+    inputs = [c.input() for c in cases]
+    here = [fresh_outcome(inp) for inp in inputs]
+    fwd = fresh_run([inputs])[0]
+    rev = fresh_run([inputs[::-1]])[0][::-1]
+    reports = 0
+    for i, case in enumerate(cases):
+        same = here[i] == fwd[i] == rev[i]
+        st.case(['fresh', case.mode, case.expr, inputs[i]['globals'].get('x')], nontrivial=True,
+                tags=case.tags + ['reference-only', 'same' if same else 'DIFFERENT'])
+        if same or reports >= 6:
+            continue
+        reports += 1
+        x = inputs[i]
+        preds = (inputs[:i][::-1][:150] + inputs[i + 1:][:150])             # nearest first, both directions
+        res = fresh_run([[x]] + [[y, x] for y in preds])
+        alone = res[0][0]
+        pair = next((y for y, r in zip(preds, res[1:]) if r[1] != alone), None)
+        if pair is not None:
+            after = next(r[1] for y, r in zip(preds, res[1:]) if r[1] != alone)
+            ctx.witness(FRESH_ORACLE, {'history': [pair], 'case': x, 'texts': [pair.get('text'), x.get('text')]}, alone, after, note=FRESH_TEXT)
+            continue
+        for hist in (inputs[:i], inputs[i + 1:][::-1]):
+            r = fresh_run([hist + [x]])[0][-1]
+            if r != alone:
+                ctx.witness(FRESH_ORACLE, {'history': hist, 'case': x, 'texts': [x.get('text')]}, alone, r, note=FRESH_TEXT)
+                break
+        else:
+            ctx.disagree('fresh-process', x, here[i], alone, note='this check process (state left by the other streams) vs a fresh interpreter')
+
+
+def fresh_replay(inp):
+    res = fresh_run([[inp['case']], list(inp['history']) + [inp['case']]])
+    return res[0][0] != res[1][-1]
+
+
+# ---------------------------------------------------------------------------------------------------------------------
 # corpus
 # ---------------------------------------------------------------------------------------------------------------------
 
@@ -2051,10 +3051,12 @@ def stream_corpus(ctx):
         gspecs = pool_specs()
         gspecs.update(entry.get('globals', {}))
         mode = entry.get('mode', 'exec')
-        if mode == 'eval':
+        if entry.get('options') in NO_GLOBALS_FORMS:
+            gspecs = {}
+        elif mode == 'eval':
             for fn in LIB_IN_TREES + ['systemLog']:
                 gspecs.setdefault(fn, {'lib': fn})
-        case = Case(mode, expr, gspecs, entry.get('locals'), entry.get('builtins', False), tags=['corpus'])
+        case = Case(mode, expr, gspecs, entry.get('locals'), entry.get('builtins', False), tags=['corpus'], optform=entry.get('options', 'full'))
         impl, _ = batch.add(case)
         if 'expect' in entry:
             want = entry['expect']
@@ -2075,6 +3077,10 @@ def streams(ctx):
     stream_string_order(ctx)
     stream_value_order(ctx)
     stream_datetime_arith(ctx)
+    stream_host_values(ctx)
+    stream_host_calls(ctx)
+    stream_options_forms(ctx)
+    stream_fresh_process(ctx)
 
 
 def disagreement_known(d, known):
@@ -2146,13 +3152,23 @@ def replay(witness):
         return not dt_law_holds(inp['form'], inp['values'], inp['law'])[0]
     if oracle == 'datetime-difference-nearest-ms':
         return nearest_ms_failure(witness['input']['globals']['a'], witness['input']['globals']['b'])[1] is not None
+    if oracle == HISTORY_ORACLE:
+        want, got = run_history(witness['input'])
+        return want != got
+    if oracle == FRESH_ORACLE:
+        return fresh_replay(witness['input'])
     case = case_of_input(witness['input'])
+    if oracle == SUBCLASS_ORACLE:
+        return plain_failure(case) is not None
     if oracle in ('alias-is-documented-target', 'binding-wins-over-builtin', 'corpus-expectation'):
-        env = {k: build(s) for k, s in case.gspecs.items()}
-        locals_ = {k: build(s) for k, s in case.lspecs.items()} if case.lspecs is not None else None
-        impl, _, _ = run_impl(case.mode, case.expr, env, locals_, case.builtins)
+        env = build_env(case.gspecs)
+        locals_ = build_env(case.lspecs) if case.lspecs is not None else None
+        impl, _, _ = run_impl(case.mode, case.expr, env, locals_, case.builtins, case.optform)
         want = witness['expected']
-        return {k: impl.get(k) for k in want} != want
+        if oracle == 'corpus-expectation':
+            return {k: impl.get(k, '<absent>') for k in want} != want
+        name = case.expr.get('function', {}).get('name')
+        return not same_outcome(name if oracle == 'alias-is-documented-target' else None, want, {k: impl[k] for k in impl if k != 'log'}, None)
     _, _, fails, _, _ = check_case(case)
     return any(name == oracle for name, _, _ in fails)
 
@@ -2172,7 +3188,12 @@ LEVEL_TEXT = ('Theorems, for expression trees of any depth and size: in the TRAC
               'mode with locals/builtins, all-pairs comparison matrices of strings from every Unicode plane / normalisation form / case with the '
               'total-order laws, all-pairs matrices and random twins of values of every type - nested, the same object, booleans beside the numbers '
               '0/1, int beside float, one instant as date / datetime / aware datetime - bare and inside order-embedding arrays / objects, datetime '
-              'arithmetic over every millisecond residue with its algebraic laws) and by an independent Python reference evaluator run against the implementation on every case.')
+              'arithmetic over every millisecond residue with its algebraic laws; host-boundary values - instances of subclasses of int / float / str / '
+              'list / dict / datetime, enum members - under every operator and in random trees, with the plain-value equivalence; host callables '
+              'declared in 14 ways that record their invocation and fail part-way with 20 exception classes, in expression shapes, random trees and '
+              'multi-step histories on re-used options, with the exactly-once-in-order invocation record; every legal form of the options argument '
+              'of evaluate_expression with failing built-in calls; the same cases in this process and in two fresh interpreter processes in opposite '
+              'orders, over values the host identifies by == / hash) and by an independent Python reference evaluator run against the implementation on every case.')
 LEVEL_NOTE = ('Trusted: Lean kernel; extract.py (alias table + identity flags); the correspondence harness and its reference evaluator. '
               'binop_numeric_partial: / % ** results are exact rationals in the model, IEEE doubles in the code - cases with an inexact step, '
               'non-finite values, stringified datetimes / -0 / exponent-form numbers, regexes are checked against the reference evaluator only. '
